@@ -2,7 +2,10 @@
 """Regenerates MANIFEST.json from bin/checks.json (one entry per implemented property)."""
 import json, os
 V = os.path.dirname(os.path.dirname(os.path.abspath(__file__)))
-conf = json.load(open(os.path.join(V, "bin", "checks.json")))
+conf = {}
+for _f in sorted(os.listdir(os.path.join(V, "bin", "checks.d"))):
+    if _f.endswith(".json"):
+        conf[_f[:-5]] = json.load(open(os.path.join(V, "bin", "checks.d", _f)))
 props = [json.loads(l) for l in open(os.path.join(V, "properties.jsonl"))]
 checks = []
 na = []
